@@ -382,6 +382,13 @@ NP_UNARY = {"np.log": sp.log, "np.exp": sp.exp, "numpy.log": sp.log, "numpy.exp"
 IDENT_CALLS = {"np.array", "np.asarray", "np.float64", "float", "np.copy", "np.atleast_1d"}
 ONES = {"np.ones", "np.ones_like"}
 _FILL_ONE, _FILL_ZERO = sp.Symbol("__np_ones__"), sp.Symbol("__np_zeros__")
+
+
+class _Bound:
+    """A bound method of the analysed object used as a value."""
+    def __init__(self, name):
+        self.name = name
+
 ZEROS = {"np.zeros", "np.zeros_like"}
 
 
@@ -593,6 +600,9 @@ class Formula:
             raise Undecided(f"free name {e.id}")
         if isinstance(e, ast.Attribute):
             if isinstance(e.value, ast.Name) and e.value.id == "self":
+                m_ = self.repo.resolve_method(self.cls, e.attr) if self.cls is not None else None
+                if e.attr in self.opaque or (m_ is not None and not m_.is_property and isinstance(m_.node, ast.FunctionDef)):
+                    return _Bound(e.attr)      # a bound method used as a value: `(self.deriv, self.deriv2)[:k]`
                 return self.field(e.attr)
             if norm(e) in ("np.pi", "math.pi"):
                 return self.alg.param("pi")
@@ -602,6 +612,12 @@ class Formula:
             raise Undecided(f"attribute {norm(e)[:40]}")
         if isinstance(e, (ast.Tuple, ast.List)):
             return tuple(self.ev(x, env, depth) for x in e.elts)
+        if isinstance(e, ast.ListComp) and len(e.generators) == 1 and not e.generators[0].ifs and \
+                isinstance(e.generators[0].target, ast.Name) and not e.generators[0].is_async:
+            seq = self.ev(e.generators[0].iter, env, depth)
+            if isinstance(seq, tuple):      # a comprehension over a literal sequence is unrolled
+                return tuple(self.ev(e.elt, {**env, e.generators[0].target.id: item}, depth) for item in seq)
+            raise Undecided(f"comprehension over `{norm(e.generators[0].iter)[:40]}`")
         if isinstance(e, ast.Subscript):
             base = self.ev(e.value, env, depth)
             if isinstance(base, tuple):
@@ -643,7 +659,10 @@ class Formula:
                 return TRUNC(self.ev(e.args[0], env, depth))
             if fn in IDENT_CALLS and len(e.args) == 1:
                 return self.ev(e.args[0], env, depth)
-            if isinstance(e.func, ast.Name) and env.get(e.func.id) in (_FILL_ONE, _FILL_ZERO):
+            if isinstance(e.func, ast.Name) and isinstance(env.get(e.func.id), _Bound) and len(e.args) == 1 and not e.keywords:
+                return self.call_method(env[e.func.id].name, self.ev(e.args[0], env, depth), depth)
+            if isinstance(e.func, ast.Name) and not isinstance(env.get(e.func.id), (tuple, _Bound)) and \
+                    env.get(e.func.id) in (_FILL_ONE, _FILL_ZERO):
                 return sp.Integer(1) if env[e.func.id] == _FILL_ONE else sp.Integer(0)
             if fn in ONES:
                 return sp.Integer(1)   # an array of ones broadcasts like the scalar 1
